@@ -6,6 +6,29 @@
   `(D, inds)` (`nx = inds.length` rows, `K` columns, `ny` rows in `y`); `.1` is `x_inds`, `.2` is `y_inds`.
   `WFQuery D inds ny K bound` is the contract of `cKDTree(y).query(x, k=K, distance_upper_bound=bound)`;
   its executable form `wfCheck` is evaluated by the model driver on every real query result of a run.
+
+  Clause by clause — what is a theorem, what is oracle-level, what is instance-only (review B, item 9):
+  * equal length, no row of either set twice, every index in range:     THEOREMS, hypothesis-free
+    (`kdt_len_eq`, `kdt_x_distinct_inrange`, `kdt_y_inrange`, `kdt_y_injective`, `kdt_pairs_one_to_one`) —
+    they hold for EVERY table `(D, inds)`, also for one a broken KD-tree would return.
+  * "every matched candidate is among the K nearest neighbours of its partner":
+      THEOREM   `kdt_knn_member`: the partner is an entry (column c < K) of the QUERY ROW of x;
+      ORACLE    that a query row consists of the K nearest rows of y is scipy's contract.  It is stated
+                as the hypothesis `KNNContract dist …` (relative to an abstract metric `dist`), under which
+                `kdt_among_K_nearest` derives the clause in the property's own words (fewer than K rows of
+                y are strictly closer).  `KNNContract` is NOT executable in the model (it quantifies over
+                all rows of y and needs the coordinates): it is checked at run time by brute force in
+                c17.py (`pairing_failures`: Euclidean distances recomputed from the coordinates,
+                kind `y-not-among-K-nearest`), independently of the KD-tree and of the model.
+  * "no matched pair is farther apart than the distance bound":
+      THEOREM   `kdt_knn_member` bounds the REPORTED distance `D[x][c]` (hypothesis `WFQuery.within`,
+                executable, validated on every real query);
+      ORACLE    that the reported distance is the true Euclidean distance (`KNNContract.exact`) —
+                run-time brute force, kind `pair-beyond-bound`.
+  * "rows without a unique admissible neighbour are omitted":            THEOREMS (`kdt_matched_iff(_wf)`,
+    `kdt_row_marked_at_most_once`, `kdt_marks_greedy`, `kdt_closest_claimant`, `kdt_first_neighbour_matched`).
+  Not modelled (handler / instance level only): promotion of 1-D inputs, feature-count mismatch, K > ny,
+  K = 0, NaN coordinates.
 -/
 import Proofs.Lemmas.Kdt
 
@@ -50,6 +73,53 @@ theorem kdt_knn_member {D : List (List Dist)} {inds : List (List Nat)} {ny K : N
   refine ⟨c, hc, hv, dist, hd, ?_⟩
   have := h.within p.1 c hx hc hfin
   rwa [hd] at this
+
+/-- scipy's contract for `cKDTree(y).query(x, k=K)` relative to a distance `dist r j` between row `r` of
+    `x` and row `j` of `y` — ORACLE level: not executable in the model, checked by brute force at run
+    time.  `exact`: a reported distance is the distance to the reported row; `nearest`: a row of `y`
+    that is not listed for `r` is at least as far from `r` as every row that is listed. -/
+structure KNNContract (dist : Nat → Nat → Rat) (D : List (List Dist)) (inds : List (List Nat)) (ny K : Nat) : Prop where
+  exact : ∀ r c, r < inds.length → c < K → indsAt inds r c < ny → dAt D r c = some (dist r (indsAt inds r c))
+  nearest : ∀ r c y', r < inds.length → c < K → indsAt inds r c < ny → y' < ny →
+    (∀ c', c' < K → indsAt inds r c' ≠ y') → dist r (indsAt inds r c) ≤ dist r y'
+
+/-- The K-NN clause in the property's own words, RELATIVE to the oracle contract: for every returned
+    pair `(x, y)` the true distance `dist x y` does not exceed the bound, and fewer than `K` rows of `y`
+    are strictly closer to `x` than `y` is (any duplicate-free list of such rows has length < K). -/
+theorem kdt_among_K_nearest {D : List (List Dist)} {inds : List (List Nat)} {ny K : Nat} {bound : Dist}
+    (dist : Nat → Nat → Rat) (h : WFQuery D inds ny K bound) (hk : KNNContract dist D inds ny K) :
+    ∀ p ∈ (kdtMatch D inds ny K).1.zip (kdtMatch D inds ny K).2,
+      dle (some (dist p.1 p.2)) bound = true ∧
+      ∀ ys : List Nat, ys.Nodup → (∀ y' ∈ ys, y' < ny ∧ dist p.1 y' < dist p.1 p.2) → ys.length < K := by
+  intro p hp
+  obtain ⟨c, hc, hcy, d, hd, hb⟩ := kdt_knn_member h p hp
+  have hx : p.1 < inds.length := (matchWith_pair hp).1
+  have hy : p.2 < ny := kdt_y_inrange D inds ny K p.2 (List.of_mem_zip hp).2
+  have hreal : indsAt inds p.1 c < ny := by rw [hcy]; exact hy
+  have hex := hk.exact p.1 c hx hc hreal
+  rw [hcy, hd] at hex
+  injection hex with hex
+  refine ⟨by rw [← hex]; exact hb, ?_⟩
+  intro ys hnd hys
+  -- every strictly closer row is listed in the query row of x, at a column other than c
+  have hsub : ys ⊆ ((List.range K).erase c).map (indsAt inds p.1) := by
+    intro y' hy'
+    obtain ⟨hlt, hcl⟩ := hys y' hy'
+    have hlisted : ∃ c', c' < K ∧ indsAt inds p.1 c' = y' := by
+      apply Classical.byContradiction
+      intro hno
+      have := hk.nearest p.1 c y' hx hc hreal hlt (fun c' hc' he => hno ⟨c', hc', he⟩)
+      rw [hcy] at this
+      grind
+    obtain ⟨c', hc', he⟩ := hlisted
+    have hne : c' ≠ c := by
+      intro e; subst e
+      rw [hcy] at he; subst he
+      grind
+    exact List.mem_map.mpr ⟨c', (List.mem_erase_of_ne hne).mpr (List.mem_range.mpr hc'), he⟩
+  have hle := hnd.length_le_of_subset hsub
+  rw [List.length_map, List.length_erase_of_mem (List.mem_range.mpr hc), List.length_range] at hle
+  omega
 
 /-- One-to-one: no row of `y` is matched twice.  (Loop invariant `Kdt.Inv`: after every column the
     marks form a partial injection from rows of `x` to `selected` values.)  This needs nothing from the
@@ -181,5 +251,30 @@ example : kdtMatch [[some 0, some 1], [some (1/2), some 2], [some 0, some 1]] [[
     = ([0, 1, 2], [1, 2, 0]) := by decide +kernel
 example : kdtMatch [[some 1, some 2], [some (1/2), some 3], [some 0, some 4]] [[0, 1], [0, 1], [0, 1]] 2 2
     = ([0, 2], [1, 0]) := by decide +kernel
+
+/-! Non-vacuity of the oracle contract: x = (0, 4), y = (0, 1, 5) on the line, K = 2, `dist r j = |x_r − y_j|`.
+    The query table below is well formed AND satisfies `KNNContract`, so `kdt_among_K_nearest` applies. -/
+def demoDist (r j : Nat) : Rat := (([[0, 1, 5], [4, 3, 1]] : List (List Rat))[r]!)[j]!
+
+example : WFQuery [[some 0, some 1], [some 1, some 3]] [[0, 1], [2, 1]] 3 2 none :=
+  (wfCheck_iff ..).mp (by decide +kernel)
+
+example : KNNContract demoDist [[some 0, some 1], [some 1, some 3]] [[0, 1], [2, 1]] 3 2 := by
+  constructor
+  · intro r c hr hc _
+    have hr' : r = 0 ∨ r = 1 := by simp at hr; omega
+    have hc' : c = 0 ∨ c = 1 := by omega
+    rcases hr' with rfl | rfl <;> rcases hc' with rfl | rfl <;> rfl
+  · intro r c y' hr hc _ hy' hno
+    have hr' : r = 0 ∨ r = 1 := by simp at hr; omega
+    have hc' : c = 0 ∨ c = 1 := by omega
+    have hy'' : y' = 0 ∨ y' = 1 ∨ y' = 2 := by omega
+    rcases hr' with rfl | rfl <;> rcases hc' with rfl | rfl <;> rcases hy'' with rfl | rfl | rfl <;>
+      first
+        | exact absurd rfl (hno 0 (by omega))
+        | exact absurd rfl (hno 1 (by omega))
+        | (show demoDist _ _ ≤ demoDist _ _; decide +kernel)
+
+example : kdtMatch [[some 0, some 1], [some 1, some 3]] [[0, 1], [2, 1]] 3 2 = ([0, 1], [0, 2]) := by decide +kernel
 
 end C17
